@@ -44,7 +44,7 @@ def main():
         if c["expect"] == "violation":
             ok = p.returncode == 1 and viol and (not c.get("obligation") or any(c["obligation"] in l for l in failed))
         else:
-            ok = p.returncode == 0 and not viol
+            ok = p.returncode in c.get("expect_exit", [0]) and not viol
         print(f"CANARY {prop}/{c['name']}: {'ok' if ok else 'UNEXPECTED'} (exit {p.returncode}, expect {c['expect']}); "
               + "; ".join(l.split()[1] for l in failed[:3]))
         if os.environ.get("CANARY_VERBOSE"):
